@@ -148,8 +148,8 @@ def delay_clear(I, env, args, kwargs):
     return NONE
 
 
-def fresh_delay_manager(I, name):
-    o = Obj("DelayManager", ObjS("DelayManager", {}), name)
+def fresh_delay_manager(I, name, cls="DelayManager"):
+    o = Obj(cls, ObjS(cls, {}), name)
     ref = Ref(name + ".pending")
     I.init_loc((ref, "$"), DConc(()))
     I.init_loc((o, "pending"), VDict(ref))
@@ -169,18 +169,18 @@ def havoc_pending(I, dm):
 DelayMgr = Init(fresh_delay_manager)
 
 
-def declare_delay_client(C):
+def declare_delay_client(C, cls="DelayManager"):
     """DelayManager as seen by its clients (literal delay names)."""
-    C.cls("DelayManager", fields={})
-    C.havoc_hooks[("DelayManager", "pending")] = havoc_pending
+    C.cls(cls, fields={})
+    C.havoc_hooks[(cls, "pending")] = havoc_pending
     P = dict(ms=Num, callback=Fn, name=Opt(Str))
     R = "client view of mpf.core.delays.DelayManager (the manager itself is verified under C13)"
-    C.ext("DelayManager.add", params=P, model=delay_add, trusted_reason=R)
-    C.ext("DelayManager.reset", params=P, model=delay_reset, trusted_reason=R)
-    C.ext("DelayManager.add_if_doesnt_exist", params=P, model=delay_add_if_doesnt_exist, trusted_reason=R)
-    C.ext("DelayManager.remove", params=dict(name=Str), model=delay_remove, trusted_reason=R)
-    C.ext("DelayManager.check", params=dict(delay=Str), model=delay_check, trusted_reason=R)
-    C.ext("DelayManager.clear", params={}, model=delay_clear, trusted_reason=R)
+    C.ext(cls + ".add", params=P, model=delay_add, trusted_reason=R)
+    C.ext(cls + ".reset", params=P, model=delay_reset, trusted_reason=R)
+    C.ext(cls + ".add_if_doesnt_exist", params=P, model=delay_add_if_doesnt_exist, trusted_reason=R)
+    C.ext(cls + ".remove", params=dict(name=Str), model=delay_remove, trusted_reason=R)
+    C.ext(cls + ".check", params=dict(delay=Str), model=delay_check, trusted_reason=R)
+    C.ext(cls + ".clear", params={}, model=delay_clear, trusted_reason=R)
 
 
 # ---------------------------------------------------------------- no-op notification interfaces
